@@ -73,7 +73,7 @@ func (C03Mon) After(w *core.World, st *core.Step) {
 
 func hostileWeights() map[string]int {
 	return map[string]int{
-		"edit-new": 10, "edit-mod": 8, "edit-rm": 3, "edit-rmdir": 2, "edit-swap": 1,
+		"edit-new": 10, "edit-copy": 2, "edit-copydir": 1, "edit-mod": 8, "edit-rm": 3, "edit-rmdir": 2, "edit-swap": 1,
 		"add": 10, "add-all": 3, "rm": 5, "commit": 8, "commit-all": 6,
 		"restore": 4, "restore-staged": 4, "reset": 9,
 		"branch-create": 6, "branch-delete": 3, "branch-rename": 5, "branch-list": 1,
